@@ -50,6 +50,11 @@ func Parse(tmpl string) (*Template, error) {
 		return nil, fmt.Errorf("template %q does not contain leading /", tmpl)
 	}
 
+	if strings.Contains(tmpl, eof) {
+		// eof is the in-band end-of-input token of the parser: a NUL in the template would end it early
+		return nil, fmt.Errorf("template %q contains a NUL character", tmpl)
+	}
+
 	tokens := tokenize(tmpl[1:])
 	p := &parser{
 		accepted: tokens[:0],
